@@ -99,7 +99,7 @@ def validate(module, records, tag, chunk=1500, timeout=1800, constants=None, ck=
     os.makedirs(d, exist_ok=True)
     for c in range(0, len(records), chunk):
         part = records[c:c + chunk]
-        path = os.path.join(d, "%s_%d.ndjson" % (tag, c))
+        path = os.path.join(d, "%s_%d.%d.ndjson" % (tag, c, os.getpid()))
         with open(path, "w") as f:
             for r in part:
                 f.write(json.dumps(r, separators=(",", ":")) + "\n")
